@@ -468,6 +468,11 @@ func (f *Flooder) getLocalDisplayName() string {
 	f.displayNameMu.RLock()
 	name := f.localDisplayName
 	f.displayNameMu.RUnlock()
+	// Advertisements carry the name with a one-byte length; a longer name
+	// would wrap the length and garble the whole advertisement.
+	if len(name) > maxDisplayNameLen {
+		name = name[:maxDisplayNameLen]
+	}
 	return name
 }
 
@@ -478,8 +483,9 @@ func (f *Flooder) getLocalDisplayName() string {
 // and seen-by list (each at most 255 entries of 16 bytes) and with the longest
 // possible display name.
 const (
+	maxDisplayNameLen         = 255
 	maxRoutesPerAdvertise     = 255
-	maxRouteBytesPerAdvertise = protocol.MaxPayloadSize - 2*(1+255*16) - (16 + 1 + 255 + 8 + 1 + 3)
+	maxRouteBytesPerAdvertise = protocol.MaxPayloadSize - 2*(1+255*16) - (16 + 1 + maxDisplayNameLen + 8 + 1 + 3)
 )
 
 // splitRoutes partitions routes, in order, into groups that each fit into one
